@@ -194,7 +194,7 @@ def classify(prog, R, rule, fns, reviewed, skip=lambda s: False, auto=None):
 
     def _fn_of(k):
         return k.split(":", 1)[1].split("|")[0]
-    orphans = [k for k, e in reviewed.items() if k.startswith(rule + ":") and k not in present and not any(e.get(c) for c in ("guard", "calls_dominated", "after_first", "completes"))
+    orphans = [k for k, e in reviewed.items() if k.startswith(rule + ":") and k not in present and not any(e.get(c) for c in ("calls_dominated", "after_first", "completes"))
                and (_fn_of(k) in cone_short or _fn_of(k) not in all_short)]
 
     def _eff_callers(fn_, want_):
@@ -215,9 +215,17 @@ def classify(prog, R, rule, fns, reviewed, skip=lambda s: False, auto=None):
 
     def _mid(k):
         parts = k.split("|")
-        return parts[1] if len(parts) >= 3 else ""
+        m_ = parts[1] if len(parts) >= 3 else ""
+        # an index on a Vec, on a slice or a compiler-inserted bounds check are the same kind of site
+        if m_.startswith(("index(Vec)", "index(slice)", "index([")) or m_ == "assert:BoundsCheck":
+            return "index-bounds"
+        # `unwrap<-f` names the function whose result is unwrapped (part of the site's identity); for other calls the
+        # text after `<-` only describes where an argument came from, which a rewrite changes
+        if "<-" in m_ and not m_.startswith(("unwrap<-", "expect<-", "unwrap_or_else<-")):
+            return m_.split("<-")[0]
+        return m_
 
-    def _take_orphan(full, fn_=None):
+    def _take_orphan(full, fn_=None, site_=None):
         crate = full.split(":", 1)[1].split("::")[0]
         mid = _mid(full)
         for i, o in enumerate(orphans):
@@ -226,22 +234,28 @@ def classify(prog, R, rule, fns, reviewed, skip=lambda s: False, auto=None):
             wc = reviewed[o].get("callers")
             if wc is not None and (fn_ is None or _eff_callers(fn_, wc) != sorted(wc)):
                 continue        # the reason rests on the call contexts: they must still be the same
+            if reviewed[o].get("guard") and (site_ is None or not dominating_guard(prog.body(site_["fn"]), site_["bb"], reviewed[o]["guard"])[0]):
+                continue        # the reason is a dominating guard: it must hold at the new place as well
             om = _mid(o)
-            if om == mid or ("<-" in mid and om.split("<-")[0] == mid.split("<-")[0]) or (mid.split(":")[0] in ("debug_assert", "assert", "unreachable", "panic") and om.split(":")[0] == mid.split(":")[0] and om[:34] == mid[:34]):
+            if om == mid or (mid.split(":")[0] in ("debug_assert", "assert", "unreachable", "panic") and om.split(":")[0] == mid.split(":")[0] and om[:34] == mid[:34]):
                 return orphans.pop(i)
         return None
+    known_keys = set()
     try:
         from framework import load_known
+        known_keys = {k["key"] for k in load_known() if k.get("property") == R.pid and k.get("status") == "known"}
         known_orphans = [k["key"] for k in load_known() if k.get("property") == R.pid and k.get("status") == "known" and k["key"].startswith(rule + ":") and k["key"] not in present
                          and (_fn_of(k["key"]) in cone_short or _fn_of(k["key"]) not in all_short)]
-    except Exception:
+    except Exception as ex_:
         known_orphans = []
+        if os.environ.get("OQ3_DEBUG_ORPHANS"):
+            print("KNOWN-ORPHANS-ERROR", repr(ex_))
 
     def _take_known(full):
         crate = full.split(":", 1)[1].split("::")[0]
         mid = _mid(full)
         for i, o in enumerate(known_orphans):
-            if o.split(":", 1)[1].split("::")[0] == crate and (_mid(o) == mid or ("<-" in mid and _mid(o).split("<-")[0] == mid.split("<-")[0])):
+            if o.split(":", 1)[1].split("::")[0] == crate and _mid(o) == mid:
                 return known_orphans.pop(i)
         return None
     for s_ in sites:
@@ -260,11 +274,11 @@ def classify(prog, R, rule, fns, reviewed, skip=lambda s: False, auto=None):
         e = reviewed.get(full)
         moved = None
         if e is None:
-            moved = _take_orphan(full, s_["fn"])
+            moved = _take_orphan(full, s_["fn"], s_)
             if moved is not None:
                 e = dict(reviewed[moved])
                 e["reason"] = f"(site moved here from {moved.split(':', 1)[1].split('|')[0]}, which no longer has it) " + e["reason"]
-        if e is None:
+        if e is None and full not in known_keys:
             ko = _take_known(full)
             if ko is not None:
                 # the site of a recorded finding moved (its function was merged / renamed): still the same finding
